@@ -30,7 +30,7 @@ func init() { core.Register(check{}) }
 func (check) ID() string    { return "C16" }
 func (check) Level() string { return "exploration" }
 func (check) Rule() string {
-	return "truth table, exhaustive: programs = structs of 3 fields, each field in every combination of {default, required, optional} x {no default, literal default} (6^3 = 216) with the third field's type rotating over {bool, double, struct, i64, list<i32>} and the id layout over {1,2,3},{63,64,65},{255,256,257},{1,64,1000}; plus depth-2 programs (outer requiredness x inner 6^2); parse options 2^2 {SetOptionalBitmap, UseDefaultValue}; j2t: all 2^4 of {WriteRequireField, WriteDefaultField, WriteOptionalField, DisallowUnknownField} x every input in {absent, null, present}^3 x {no unknown member, unknown member}; t2j: same 2^4 x {absent, present}^3 x {no unknown, unknown} x 2 wire orders; cutting (generic.Value.MarshalTo between two independent parses of the program): all 2^3 of {WriteDefault, NotCheckRequireNess, DisallowUnknow} x {absent, present}^3 x unknown; environment deviations: DoInto capacities, dirty pooled bitmaps (all-ones, capacities 0..17) and dirty native bitmap cache. A case is one (side, program, parse options, options, input)."
+	return "truth table, exhaustive: programs = structs of 3 fields, each field in every combination of {default, required, optional} x {no default, literal default} (6^3 = 216) with the third field's type rotating over {bool, double, struct, i64, list<i32>} and the id layout over {1,2,3},{63,64,65},{255,256,257},{1,64,1000}; the whole 216-program table again (declared order, no unknown member) on each layout whose largest id is a bitmap-length edge: {1,2,63},{1,2,64},{1,64,128},{2,3,256},{64,128,320},{1,2,32767}; plus depth-2 programs (outer requiredness x inner 6^2); parse options 2^2 {SetOptionalBitmap, UseDefaultValue}; j2t: all 2^4 of {WriteRequireField, WriteDefaultField, WriteOptionalField, DisallowUnknownField} x every input in {absent, null, present}^3 x {no unknown member, unknown member}; t2j: same 2^4 x {absent, present}^3 x {no unknown, unknown} x 2 wire orders; cutting (generic.Value.MarshalTo between two independent parses of the program): all 2^3 of {WriteDefault, NotCheckRequireNess, DisallowUnknow} x {absent, present}^3 x unknown; environment deviations: DoInto capacities, dirty pooled bitmaps (all-ones, capacities 0..17) and dirty native bitmap cache. A case is one (side, program, parse options, options, input)."
 }
 
 func (check) Assumptions() []string {
@@ -73,6 +73,10 @@ type program struct {
 
 var idSets = [][3]int16{{1, 2, 3}, {63, 64, 65}, {255, 256, 257}, {1, 64, 1000}}
 
+// edgeIDSets: layouts whose LARGEST id sits on / next to a bitmap word boundary (the bitmap's length is a
+// function of the largest id), plus the largest legal id.
+var edgeIDSets = [][3]int16{{1, 2, 63}, {1, 2, 64}, {1, 64, 128}, {2, 3, 256}, {64, 128, 320}, {1, 2, 32767}}
+
 var innerPlain = tbin.StructS(tbin.SField{ID: 1, Name: "ix", S: tbin.Sc(tbin.I32), Req: 2}, tbin.SField{ID: 2, Name: "iy", S: tbin.Sc(tbin.STRING), Req: 1})
 
 func thirdType(k int) (s *tbin.Shape, def *tbin.Val, lit string, sample *tbin.Val) {
@@ -90,9 +94,16 @@ func thirdType(k int) (s *tbin.Shape, def *tbin.Val, lit string, sample *tbin.Va
 }
 
 // mkProgram builds program number pi (0..215): field i has requiredness (pi/6^i%6)/2 and a default iff odd.
-func mkProgram(pi int) *program {
+func mkProgram(pi int) *program { return mkProgramL(pi, -1) }
+
+// mkProgramL: layout < 0 = the rotating idSets layout, else edgeIDSets[layout].
+func mkProgramL(pi, layout int) *program {
 	ids := idSets[pi%len(idSets)]
 	p := &program{name: fmt.Sprintf("p%d", pi)}
+	if layout >= 0 {
+		ids = edgeIDSets[layout]
+		p.name = fmt.Sprintf("p%dL%d", pi, layout)
+	}
 	root := tbin.StructS()
 	for i := 0; i < 3; i++ {
 		c := pi
